@@ -59,6 +59,7 @@ class ProtoGreedySearch():
             self.batch_size = batch_size
 
         self.cases_dataset = sanitize_dataset(cases_dataset, self.batch_size)
+        self.nb_features = self.cases_dataset.element_spec.shape[-1]
 
         # set kernel function
         if kernel_fn is None:
